@@ -58,6 +58,9 @@ func convCompFuncV1ToV2(cf *ugo.CompiledFunction, opWidth []int) error {
 	var hasJump bool
 	for i := 0; !hasJump && i < len(cf.Instructions); {
 		op := cf.Instructions[i]
+		if int(op) >= len(opv1.OpcodeOperands) || int(op) >= len(opWidth) {
+			return fmt.Errorf("unknown opcode %d at %d", op, i)
+		}
 
 		switch op {
 		case
@@ -81,6 +84,9 @@ func convCompFuncV1ToV2(cf *ugo.CompiledFunction, opWidth []int) error {
 
 	for i := 0; i < len(cf.Instructions); {
 		op := cf.Instructions[i]
+		if int(op) >= len(opv1.OpcodeOperands) || int(op) >= len(opWidth) {
+			return fmt.Errorf("unknown opcode %d at %d", op, i)
+		}
 		newInsts = append(newInsts, op)
 
 		if pos, ok := cf.SourceMap[i]; ok {
@@ -88,6 +94,9 @@ func convCompFuncV1ToV2(cf *ugo.CompiledFunction, opWidth []int) error {
 		}
 
 		w := opWidth[op]
+		if w < 0 || w > len(cf.Instructions)-i-1 {
+			return fmt.Errorf("truncated instruction at %d", i)
+		}
 
 		switch op {
 		case opv1.OpJump, opv1.OpJumpFalsy, opv1.OpAndJump, opv1.OpOrJump, opv1.OpSetupTry:
